@@ -337,6 +337,31 @@ TIES = {
     'IsCompleted': dict(props=['C06'], theorems=['is_completed_eq', 'completed_tie'], cxx='sequence_type::is_completed (sequence.hpp)'),
     'ValidateMatch': dict(props=['C05', 'C15'], theorems=['validate_match_eq', 'validate_tie'], cxx='sequence_type::validate_match (sequence.hpp)'),
     'SeqDtor': dict(props=['C06'], theorems=['seq_dtor_eq', 'teardown_tie'], cxx='sequence_type::~sequence_type (sequence.hpp)'),
+    'RunActions': dict(props=['C01', 'C03', 'C05', 'C07', 'C08', 'C16'], theorems=['run_actions_order'], cxx='call_matcher::run_actions (mock.hpp)'),
+    'CallMatcherDtor': dict(props=['C04'], theorems=['call_matcher_dtor_order'], cxx='call_matcher::~call_matcher (mock.hpp)'),
+    'MockDestroyed': dict(props=['C04'], theorems=['mock_destroyed_order'], cxx='call_matcher::mock_destroyed (mock.hpp)'),
+    'IsUnfulfilled': dict(props=['C04'], theorems=['is_unfulfilled_tie'], cxx='call_matcher::is_unfulfilled (mock.hpp)'),
+    'ReportMissed': dict(props=['C04'], theorems=['report_missed_order'], cxx='call_matcher::report_missed (mock.hpp)'),
+    'Decommission': dict(props=['C04'], theorems=['decommission_order'], cxx='call_matcher_list::decommission (mock.hpp)'),
+    'Notify': dict(props=['C05', 'C06', 'C13'], theorems=['notify_order'], cxx='lifetime_monitor::notify (lifetime.hpp)'),
+    'LifetimeMonitorDtor': dict(props=['C13', 'C14'], theorems=['lifetime_monitor_dtor_order'], cxx='lifetime_monitor::~lifetime_monitor (lifetime.hpp)'),
+    'DeathwatchedDtor': dict(props=['C13', 'C14'], theorems=['deathwatched_dtor_order'], cxx='deathwatched<T>::~deathwatched (lifetime.hpp)'),
+    'TracerDtor': dict(props=['C14', 'C17'], theorems=['tracer_dtor_tie'], cxx='tracer::~tracer (mock.hpp)'),
+    'MockFunc': dict(props=['C01', 'C08', 'C17'], theorems=['mock_func_order'], cxx='trompeloeil::mock_func (mock.hpp)'),
+    'HandleCost': dict(props=['C05', 'C14'], theorems=['handle_cost_tie'], cxx='sequence_matcher::cost (sequence.hpp)'),
+    'HandleValidate': dict(props=['C05', 'C15'], theorems=['handle_validate_order'], cxx='sequence_matcher::validate_match (sequence.hpp)'),
+    'HandleRetire': dict(props=['C06', 'C14'], theorems=['handle_retire_order'], cxx='sequence_matcher::retire (sequence.hpp)'),
+    'HandleDetach': dict(props=['C06', 'C14'], theorems=['handle_detach_order'], cxx='sequence_matcher::detach (sequence.hpp)'),
+    'HandleRetirePredecessors': dict(props=['C05'], theorems=['handle_retire_predecessors_order'], cxx='sequence_matcher::retire_predecessors (sequence.hpp)'),
+    'AllValidate': dict(props=['C05', 'C15'], theorems=['all_validate_order'], cxx='sequence_matchers<N>::validate (sequence.hpp)'),
+    'AllRetire': dict(props=['C06'], theorems=['all_retire_order'], cxx='sequence_matchers<N>::retire (sequence.hpp)'),
+    'AllRetirePredecessors': dict(props=['C05', 'C06'], theorems=['all_retire_predecessors_order'], cxx='sequence_matchers<N>::retire_predecessors (sequence.hpp)'),
+    'CanBeCalled': dict(props=['C01', 'C05'], theorems=['can_be_called_tie'], cxx='sequence_handler<N>::can_be_called (mock.hpp)'),
+    'HandlerIsSatisfied': dict(props=['C03', 'C05', 'C06'], theorems=['is_satisfied_tie'], cxx='sequence_handler_base::is_satisfied (mock.hpp)'),
+    'HandlerIsSaturated': dict(props=['C03'], theorems=['is_saturated_tie'], cxx='sequence_handler_base::is_saturated (mock.hpp)'),
+    'HandlerIsForbidden': dict(props=['C03', 'C07'], theorems=['is_forbidden_tie'], cxx='sequence_handler_base::is_forbidden (mock.hpp)'),
+    'HandlerIncrementCall': dict(props=['C03'], theorems=['increment_call_tie'], cxx='sequence_handler_base::increment_call (mock.hpp)'),
+    'HandleIsOptional': dict(props=['C05', 'C15'], theorems=['is_optional_tie'], cxx='sequence_matcher::is_optional (sequence.hpp)'),
 }
 
 
